@@ -2,6 +2,8 @@ package main
 
 import (
 	"fmt"
+	"go/ast"
+	"go/constant"
 	"go/types"
 	"os"
 	"path/filepath"
@@ -39,6 +41,9 @@ type Engine struct {
 	known      []*KnownFinding
 	fieldInvs  map[string]*FieldInv // canon struct type + "#" + field index
 	fieldSitesOutside map[string][]string
+	tables     map[*ssa.Global]*tableInfo
+	tableText  string
+	astPkgs    map[string]*packages.Package
 	fieldSites map[string][]string  // inventory: invariant key -> functions containing a store site
 }
 
@@ -72,7 +77,9 @@ func loadEngine(repo string) (*Engine, error) {
 	e := &Engine{repo: repo, pkgs: map[string]*ssa.Package{}, tpkgs: map[string]*types.Package{},
 		contracts: map[*ssa.Function]*Contract{}, ifaceCt: map[string]*Contract{}, ctFunc: map[*Contract]*ssa.Function{},
 		sentinels: map[*ssa.Global]*sentinel{}, tags: map[string]int{}, externals: map[string]*Contract{}}
+	e.astPkgs = map[string]*packages.Package{}
 	for _, p := range pkgs {
+		e.astPkgs[p.PkgPath] = p
 		for _, er := range p.Errors {
 			e.loadErrs = append(e.loadErrs, er.Error())
 		}
@@ -127,6 +134,11 @@ func loadEngine(repo string) (*Engine, error) {
 			}
 			for _, g := range cf.Globals {
 				if err := e.bindSentinel(g); err != nil {
+					return e, err
+				}
+			}
+			for _, tb := range cf.Tables {
+				if err := e.bindTable(tb); err != nil {
 					return e, err
 				}
 			}
@@ -510,4 +522,152 @@ func findLoops(f *ssa.Function) []*loopInfo {
 		l.ord = i
 	}
 	return loops
+}
+
+// tableInfo: a package-level constant table ([...][]int literal) whose
+// contents are read from the source on every run.
+type tableInfo struct {
+	g      *ssa.Global
+	name   string // spec name prefix, e.g. parser_OpcodeOperands
+	rows   map[int64][]int64
+	maxLen int
+}
+
+// bindTable reads the composite literal of a `table` declaration and checks
+// that the variable is never stored to outside the package initialiser.
+func (e *Engine) bindTable(g *GlobalFact) error {
+	sp := e.pkgs[g.PkgPath]
+	m, ok := sp.Members[g.Name].(*ssa.Global)
+	if !ok {
+		return fmt.Errorf("%s:%d: global %s not found", g.File, g.Line, g.Name)
+	}
+	ap := e.astPkgs[g.PkgPath]
+	var lit *ast.CompositeLit
+	for _, f := range ap.Syntax {
+		for _, d := range f.Decls {
+			gd, ok := d.(*ast.GenDecl)
+			if !ok {
+				continue
+			}
+			for _, sp := range gd.Specs {
+				vs, ok := sp.(*ast.ValueSpec)
+				if !ok {
+					continue
+				}
+				for i, n := range vs.Names {
+					if n.Name == g.Name && i < len(vs.Values) {
+						lit, _ = vs.Values[i].(*ast.CompositeLit)
+					}
+				}
+			}
+		}
+	}
+	if lit == nil {
+		return fmt.Errorf("%s:%d: table %s has no composite literal", g.File, g.Line, g.Name)
+	}
+	ti := &tableInfo{g: m, name: shortPkg(g.PkgPath) + "_" + g.Name, rows: map[int64][]int64{}}
+	next := int64(0)
+	for _, el := range lit.Elts {
+		val := el
+		if kv, ok := el.(*ast.KeyValueExpr); ok {
+			tv := ap.TypesInfo.Types[kv.Key]
+			if tv.Value == nil {
+				return fmt.Errorf("table %s: non-constant key", g.Name)
+			}
+			next, _ = constant.Int64Val(constant.ToInt(tv.Value))
+			val = kv.Value
+		}
+		rl, ok := val.(*ast.CompositeLit)
+		if !ok {
+			return fmt.Errorf("table %s: row is not a composite literal", g.Name)
+		}
+		var row []int64
+		for _, x := range rl.Elts {
+			tv := ap.TypesInfo.Types[x]
+			if tv.Value == nil {
+				return fmt.Errorf("table %s: non-constant element", g.Name)
+			}
+			v, _ := constant.Int64Val(constant.ToInt(tv.Value))
+			row = append(row, v)
+		}
+		ti.rows[next] = row
+		if len(row) > ti.maxLen {
+			ti.maxLen = len(row)
+		}
+		next++
+	}
+	// never written outside init: no Store whose address is derived from the global
+	for _, f := range e.modFuncs {
+		derived := map[ssa.Value]bool{m: true}
+		for changed := true; changed; {
+			changed = false
+			for _, b := range f.Blocks {
+				for _, in := range b.Instrs {
+					v, ok := in.(ssa.Value)
+					if !ok || derived[v] {
+						continue
+					}
+					switch x := in.(type) {
+					case *ssa.IndexAddr:
+						if derived[x.X] {
+							derived[v], changed = true, true
+						}
+					case *ssa.UnOp:
+						if derived[x.X] {
+							derived[v], changed = true, true
+						}
+					case *ssa.Slice:
+						if derived[x.X] {
+							derived[v], changed = true, true
+						}
+					case *ssa.Phi:
+						for _, ed := range x.Edges {
+							if derived[ed] {
+								derived[v], changed = true, true
+							}
+						}
+					}
+				}
+			}
+		}
+		for _, b := range f.Blocks {
+			for _, in := range b.Instrs {
+				if st, ok := in.(*ssa.Store); ok && derived[st.Addr] {
+					return fmt.Errorf("table %s is written in %s", g.Name, f)
+				}
+			}
+		}
+	}
+	if e.tables == nil {
+		e.tables = map[*ssa.Global]*tableInfo{}
+	}
+	e.tables[m] = ti
+	// spec functions <name>_len, <name>_at, <name>_sum over a 64-bit index
+	var keys []int64
+	for k := range ti.rows {
+		keys = append(keys, k)
+	}
+	sort.Slice(keys, func(i, j int) bool { return keys[i] < keys[j] })
+	lenT, sumT := bv64(0), bv64(0)
+	atT := bv64(0)
+	for i := len(keys) - 1; i >= 0; i-- {
+		k := keys[i]
+		row := ti.rows[k]
+		var sum int64
+		rowAt := bv64(0)
+		for j := len(row) - 1; j >= 0; j-- {
+			sum += row[j]
+			rowAt = ite(eq("j", bv64(int64(j))), bv64(row[j]), rowAt)
+		}
+		c := eq("i", bv64(k))
+		lenT = ite(c, bv64(int64(len(row))), lenT)
+		sumT = ite(c, bv64(sum), sumT)
+		atT = ite(c, rowAt, atT)
+	}
+	b64 := bvSort(64)
+	e.tableText += fmt.Sprintf("(define-fun spec_%s_len ((i %s)) %s %s)\n", ti.name, b64, b64, lenT)
+	e.tableText += fmt.Sprintf("(define-fun spec_%s_sum ((i %s)) %s %s)\n", ti.name, b64, b64, sumT)
+	e.tableText += fmt.Sprintf("(define-fun spec_%s_at ((i %s) (j %s)) %s %s)\n", ti.name, b64, b64, b64, atT)
+	e.tableText += fmt.Sprintf("(define-fun spec_%s_rows () %s %s)\n", ti.name, b64, bv64(int64(len(keys))))
+	return nil
 }
